@@ -565,6 +565,10 @@ func batchOwnCtx() string {
 }
 
 func closeScenario(state *waitState) string {
+	return closeScenarioAfter(state, 40*time.Millisecond)
+}
+
+func closeScenarioAfter(state *waitState, wait time.Duration) string {
 	gohbase.VerifSetSleepOverride(nil)
 	rng := NewRNG(2, "c19")
 	c := buildCluster(rng)
@@ -591,7 +595,10 @@ func closeScenario(state *waitState) string {
 			_, err := sc.cl.Get(g)
 			resCh <- classOf(err)
 		}()
-		time.Sleep(40 * time.Millisecond)
+		time.Sleep(wait)
+		if wait > time.Second {
+			name = "long-" + name
+		}
 	}
 	t0 := time.Now()
 	sc.cl.Close()
@@ -745,6 +752,11 @@ func init() {
 		for _, st := range append(append([]waitState{}, waitStates...), closeOnlyStates...) {
 			st := st
 			jobs = append(jobs, func() string { return closeScenario(&st) })
+		}
+		if tier != "quick" {
+			// Close while the caller sleeps in a back-off that has grown past a second
+			st := waitStates[3]
+			jobs = append(jobs, func() string { return closeScenarioAfter(&st, 2200*time.Millisecond) })
 		}
 		runSharded("C19", tier, seed, out, 8, func(shard, nsh int, emit func(string)) {
 			for i := shard; i < len(jobs); i += nsh {
